@@ -93,6 +93,43 @@ pub fn close_leaked_os(path: &std::ffi::OsStr) {
 }
 
 
+// ------------------------------------------------------------------ risky work in a child process
+/// Runs `f` in a forked child and returns the text it produced. Whatever the code under test does to the
+/// process — aborts (a panic inside an `extern "C"` function), exhausts descriptors or mappings, spins for
+/// ever — dies with the child: `crash <wait status>` if it died, `timeout` (child killed) after `limit_s` seconds.
+pub fn in_child(limit_s: u64, f: impl FnOnce() -> String) -> String {
+    use std::io::Read;
+    use std::os::unix::io::FromRawFd;
+    let mut fds = [0i32; 2];
+    unsafe { if libc::pipe(fds.as_mut_ptr()) != 0 { return "pipe-failed".into(); } }
+    let pid = unsafe { libc::fork() };
+    if pid < 0 { return "fork-failed".into(); }
+    if pid == 0 {
+        unsafe { libc::close(fds[0]); }
+        let t = match guarded(std::panic::AssertUnwindSafe(f)) { Ok(t) => t, Err(_) => "panic".to_string() };
+        unsafe { libc::write(fds[1], t.as_ptr() as *const libc::c_void, t.len()); libc::_exit(0); }
+    }
+    unsafe { libc::close(fds[1]); }
+    let mut pfd = libc::pollfd { fd: fds[0], events: libc::POLLIN, revents: 0 };
+    let t0 = raw_mono_secs();
+    loop {
+        let r = unsafe { libc::poll(&mut pfd, 1, 500) };
+        if r > 0 { break; }
+        if raw_mono_secs().saturating_sub(t0) >= limit_s {
+            unsafe { libc::kill(pid, libc::SIGKILL); let mut st = 0i32; libc::waitpid(pid, &mut st, 0); libc::close(fds[0]); }
+            return "timeout".into();
+        }
+    }
+    let mut out = String::new();
+    let mut rd = unsafe { std::fs::File::from_raw_fd(fds[0]) };
+    let _ = rd.read_to_string(&mut out);
+    let mut st = 0i32;
+    unsafe { libc::waitpid(pid, &mut st, 0); }
+    if out.is_empty() { format!("crash {}", st) } else { out }
+}
+
+pub fn watchdog_limit() -> u64 { std::env::var("CBH_WATCHDOG_S").ok().and_then(|s| s.parse().ok()).unwrap_or(120) }
+
 // ------------------------------------------------------------------ watchdog: a request that never returns
 //
 // C14 / C18 promise that client calls return. A change that makes one spin for ever must not hang the
